@@ -37,7 +37,10 @@ class Sandbox:
         for rel, tgt in (links or {}).items():
             p = os.path.join(self.root, rel)
             os.makedirs(os.path.dirname(p), exist_ok=True)
-            os.symlink(os.path.join(self.root, tgt), p)
+            if tgt.startswith("rel:"):          # a relative link (resolved against the link's own directory)
+                os.symlink(os.path.relpath(os.path.join(self.root, tgt[4:]), os.path.dirname(p)), p)
+            else:
+                os.symlink(os.path.join(self.root, tgt), p)
 
     def abs(self, rel):
         return os.path.join(self.root, rel)
@@ -64,14 +67,15 @@ def real_used(state):
 def ref_used(sb, files, configuration, extra_exists=None):
     """platform -> (set of (abs file, line), events) by the reference preprocessor.
     Raises refpp.Invalid if a conforming preprocessor would diagnose the program."""
-    absfiles = {sb.abs(rel): lines for rel, lines in files.items()}
+    absfiles = {os.path.realpath(sb.abs(rel)): lines for rel, lines in files.items()}
     exists = lambda p: os.path.isfile(p)      # noqa: E731  (the tree on disk is the model's file system)
     out = {}
     for plat, entries in configuration.items():
         used, events = set(), []
         for e in entries:
             defines = dict(refpp.parse_define(d) for d in e["defines"])
-            r = refpp.run_tu(absfiles, exists, e["file"], e["include_paths"], defines, e.get("include_files", ()))
+            r = refpp.run_tu(absfiles, exists, e["file"], e["include_paths"], defines, e.get("include_files", ()),
+                             canon=os.path.realpath)
             used |= r.used
             events += r.events
         out[plat] = (used, events)
